@@ -212,7 +212,8 @@ func checkC10(ci any, info *CaseInfo) string {
 		if d := model.Diff(vb, va, model.Rules{}); d != "" {
 			return fmt.Sprintf("%s: unfolding the extended call and its expansion gives different values: %s (extended %#v, expanded %#v)", desc, d, ta, tb)
 		}
-		if d := model.Diff(exp, va, model.Rules{}); d != "" {
+		// a Go map keeps the last of duplicate members
+		if d := model.Diff(dedupLastWins(exp), va, model.Rules{}); d != "" {
 			return fmt.Sprintf("%s: unfolding yields another value than the stream holds: %s (%#v)", desc, d, ta)
 		}
 		if ta != nil && tb != nil && !sameGoTypes(reflect.ValueOf(ta), reflect.ValueOf(tb), 0) {
@@ -438,4 +439,35 @@ func init() {
 		Check: checkC10,
 		Enum:  enumC10,
 	})
+}
+
+// dedupLastWins gives objects map semantics: of duplicate members the last one
+// survives (at its position).
+func dedupLastWins(v model.V) model.V {
+	switch v.K {
+	case model.VArr:
+		out := v
+		out.A = make([]model.V, len(v.A))
+		for i, x := range v.A {
+			out.A[i] = dedupLastWins(x)
+		}
+		return out
+	case model.VObj:
+		out := v
+		out.O = nil
+		last := map[string]int{}
+		for i, m := range v.O {
+			last[string(m.Key)] = i
+		}
+		for i, m := range v.O {
+			if last[string(m.Key)] == i {
+				out.O = append(out.O, model.Member{Key: m.Key, Val: dedupLastWins(m.Val)})
+			}
+		}
+		if out.O == nil {
+			out.O = []model.Member{}
+		}
+		return out
+	}
+	return v
 }
